@@ -3,6 +3,7 @@ import Gpv.Drv.Acc
 import Gpv.Drv.P2
 import Gpv.Drv.Pipe
 import Gpv.Drv.Misc
+import Gpv.Drv.Alias
 open Gpv Gpv.Drv
 
 structure DSt where
@@ -23,6 +24,7 @@ def dispatch (st : DSt) (line : String) : DSt × List String :=
     else if w.startsWith "strm." then (st, strmDispatch ws)
     else if w.startsWith "net." then (st, netDispatch ws)
     else if w.startsWith "store." then (st, storeDispatch ws)
+    else if w.startsWith "alias." then (st, aliasDispatch ws)
     else if w = "#" then (st, [])
     else (st, ["bad-op"])
 
